@@ -29,7 +29,7 @@ LEVEL_TEXT = ("seeded search over invocation histories (closure scalars, IN list
 LEVEL_NOTE = ("only documented lambda usage is generated (no attribute access on closure objects, no None closure values); SQLite only; "
               "thread pre-emption at line granularity inside sql/lambdas.py, sql/cache_key.py, util/_collections.py")
 TIERS = {
-    "quick": {"runs": 2500, "secs": 30},
+    "quick": {"runs": 3500, "secs": 30},
     "thorough": {"runs": 150000, "secs": 420, "hashseeds": [0, 1]},
 }
 SHRINK = ["hist", "switches"]
